@@ -331,6 +331,10 @@ var rawHeaders = []string{
 func genScript(t *rapid.T) Script {
 	var s Script
 	names := []string{"reg1.test", "reg1.test:5001", "reg2.test"}
+	if rapid.IntRange(0, 3).Draw(t, "portFamily") == 0 {
+		// one machine, three registries: the ports differ in digits that also occur in 443 and 80
+		names = []string{"reg1.test:4443", "reg1.test:3443", "reg1.test:8080"}
+	}
 	nh := rapid.IntRange(2, 3).Draw(t, "nhosts")
 	if rapid.IntRange(0, 3).Draw(t, "adjacentName") == 0 {
 		// a host whose plaintext URL spells like the first host's https URL when the "://" is left out
